@@ -244,6 +244,23 @@ func (r *txRunner) observe(c *txcache.TxCache) *txObs {
 	return o
 }
 
+// listsFromKeys: the senders' lists as the hash index implies them (hash -> definition, grouped by sender, documented order)
+func (r *txRunner) listsFromKeys(o *txObs) map[string][]*txDef {
+	m := map[string][]*txDef{}
+	for k := range o.keys {
+		d := r.defs[k]
+		if d == nil {
+			continue
+		}
+		m[string(d.sender)] = append(m[string(d.sender)], d)
+	}
+	for sn := range m {
+		l := m[sn]
+		sort.SliceStable(l, func(i, j int) bool { return listLess(l[i], l[j]) })
+	}
+	return m
+}
+
 func (r *txRunner) dump(o *txObs) string {
 	var sb strings.Builder
 	ks := make([][]byte, 0, len(o.keys))
@@ -854,6 +871,15 @@ func (r *txRunner) execSel(tok []string, line string) (string, string) {
 		if !sameList(exp, res) || expGas.Cmp(new(big.Int).SetUint64(acc)) != 0 {
 			r.add("C03", "greedy-mismatch", fmt.Sprintf("%s: got %s gas %d, greedy reference %s gas %s", where, hashesOf(res), acc, hashesOf(exp), expGas))
 		}
+		// C03: "depends only on pool contents": the same reference over the lists rebuilt from the hash index (Keys), in the
+		// documented per-sender order, must give the same sequence; a selection served from anything else than the present
+		// content of the pool (a stale copy of a sender's list, say) differs here even when it agrees with the lists the
+		// pool hands out
+		truth := r.listsFromKeys(pre)
+		expT, expTGas := r.refSelect(truth, s, gas, maxNum)
+		if !sameList(expT, res) || expTGas.Cmp(new(big.Int).SetUint64(acc)) != 0 {
+			r.add("C03", "not-a-function-of-pool-contents", fmt.Sprintf("%s: got %s gas %d, greedy reference over the hashes in the pool %s gas %s", where, hashesOf(res), acc, hashesOf(expT), expTGas))
+		}
 		// C03: prefix under lowered limits / time budget
 		if len(txs) > 0 {
 			lower := len(txs) - 1
@@ -1050,6 +1076,50 @@ func txDirected() [][]string {
 			"tx c101 c0 0 2 10 100 20 0 -", "tx c102 c0 1 2 10 100 20 0 -", "tx c103 c0 2 2 10 100 20 0 -",
 			"tx b101 b0 0 3 10 800 30 0 -", "tx d101 d0 0 4 10 50 40 0 -", "tx d102 d0 1 4 10 50 40 0 -",
 			"add a101", "add a102", "add a103", "add a104", "add c101", "add c102", "add c103", "add b101", "add d101", "add d102"},
+		// a sender that survives a partial eviction and then grows to its byte limit: eviction by count (threshold 4) takes the
+		// highest nonce of a0 (the least valuable transactions), the other senders leave, a0 adds until 400 bytes > 300 are
+		// offered: the per-sender byte limit must still be enforced on the sender's REAL content
+		{"begin txcache chunks=1 evict=1 nb=1000000 nbs=300 c=4 cs=100 n=1",
+			"tx a101 a0 0 1 10 100 10 0 -", "tx a102 a0 1 1 10 100 10 0 -", "tx a103 a0 2 1 10 100 10 0 -",
+			"tx a104 a0 2 1 10 100 10 0 -", "tx a105 a0 3 1 10 100 10 0 -", "tx a106 a0 4 1 10 100 10 0 -",
+			"tx b101 b0 0 5 10 50 50 0 -", "tx c101 c0 0 5 10 50 50 0 -", "tx d101 d0 0 5 10 50 50 0 -", "tx e101 e0 0 5 10 50 50 0 -",
+			"add a101", "add a102", "add a103", "add b101", "add c101", "add d101", "add e101",
+			"rm b101", "rm c101", "rm d101", "rm e101",
+			"add a104", "add a105", "add a106", "add a103"},
+		// the same by bytes with batches of two, the survivor keeps one transaction only
+		{"begin txcache chunks=4 evict=1 nb=500 nbs=250 c=1000 cs=100 n=2",
+			"tx a101 a0 0 1 10 80 10 0 -", "tx a102 a0 1 1 10 80 10 0 -", "tx a103 a0 2 1 10 80 10 0 -",
+			"tx a104 a0 1 1 10 80 10 0 -", "tx a105 a0 2 1 10 80 10 0 -", "tx a106 a0 3 1 10 80 10 0 -",
+			"tx b101 b0 0 5 10 150 50 0 -", "tx c101 c0 0 5 10 150 50 0 -", "tx d101 d0 0 5 10 50 50 0 -",
+			"add a101", "add a102", "add a103", "add b101", "add c101", "add d101",
+			"rm b101", "rm c101", "rm d101",
+			"add a104", "add a105", "add a106"},
+		// selection, then an insertion by ANOTHER sender whose eviction cuts the tail of a0, then the same selection again:
+		// the second selection must be computed from what is in the pool now (no evicted transaction, same greedy merge)
+		{"begin txcache chunks=1 evict=1 nb=1000000 nbs=1000000 c=5 cs=100 n=1",
+			"tx a101 a0 0 1 10 50 10 0 -", "tx a102 a0 1 1 10 50 10 0 -", "tx a103 a0 2 1 10 50 10 0 -", "tx a104 a0 3 1 10 50 10 0 -",
+			"tx b101 b0 0 5 10 50 50 0 -", "tx b102 b0 1 5 10 50 50 0 -", "tx c101 c0 0 6 10 50 60 0 -", "tx d101 d0 0 7 10 50 70 0 -",
+			"add a101", "add a102", "add a103", "add a104", "add b101", "add b102",
+			"sel 1000000 1000 0 a:a0:0:1000000 a:b0:0:1000000 a:c0:0:1000000 a:d0:0:1000000",
+			"add c101",
+			"sel 1000000 1000 0 a:a0:0:1000000 a:b0:0:1000000 a:c0:0:1000000 a:d0:0:1000000",
+			"add d101",
+			"sel 1000000 1000 0 a:a0:0:1000000 a:b0:0:1000000 a:c0:0:1000000 a:d0:0:1000000",
+			"selb 1000000 1000 0 a:a0:0:1000000 a:b0:0:1000000 a:c0:0:1000000 a:d0:0:1000000",
+			"rm a101",
+			"sel 1000000 1000 0 a:a0:1:1000000 a:b0:0:1000000 a:c0:0:1000000 a:d0:0:1000000"},
+		// the same by bytes, several chunks, two senders cut
+		{"begin txcache chunks=16 evict=1 nb=400 nbs=1000000 c=1000 cs=100 n=2",
+			"tx a101 a0 0 1 10 50 10 0 -", "tx a102 a0 1 1 10 50 10 0 -", "tx a103 a0 2 1 10 50 10 0 -",
+			"tx b101 b0 0 2 10 50 20 0 -", "tx b102 b0 1 2 10 50 20 0 -", "tx b103 b0 2 2 10 50 20 0 -",
+			"tx c101 c0 0 6 10 150 60 0 -", "tx d101 d0 0 7 10 50 70 0 -",
+			"add a101", "add a102", "add a103", "add b101", "add b102", "add b103",
+			"selb 1000000 1000 0 a:a0:0:1000000 a:b0:0:1000000 a:c0:0:1000000 a:d0:0:1000000",
+			"add c101",
+			"selb 1000000 1000 0 a:a0:0:1000000 a:b0:0:1000000 a:c0:0:1000000 a:d0:0:1000000",
+			"add d101",
+			"selb 1000000 1000 0 a:a0:0:1000000 a:b0:0:1000000 a:c0:0:1000000 a:d0:0:1000000",
+			"sel 1000000 1000 0 a:a0:0:1000000 a:b0:0:1000000 a:c0:0:1000000 a:d0:0:1000000"},
 	}
 }
 
